@@ -9,7 +9,7 @@ PROP = "C19"
 LEVEL = "exploration"
 RULE = ("sequences of 2..6 back-to-back SDO client transfers (upload / download, sizes 1..2000 incl. every size 1..600 once per direction, "
         "timeouts 5..500 ms, idle gaps) against a scripted reference server that is conforming, aborts / goes silent / answers late at step "
-        "k (k over every step of the transfer), answers exactly around the expiry of the timeout with the timer event served but not yet processed (either outcome, exactly once), or sends wrong-toggle, wrong-multiplexer, wrong-kind, oversized or early-end responses; "
+        "k (k over every step of the transfer), answers exactly around the expiry of the timeout with the timer event served but not yet processed (either outcome, exactly once), or sends wrong-toggle, wrong-multiplexer, wrong-kind, oversized (one segment too many, expedited or announced size larger than the user buffer) or early-end responses; "
         "checked per transfer: exactly one completion callback with the right code and tick, request frames equal to the reference "
         "client's (command, size, toggle, last marking, data), user buffer content (exact-size buffer under ASan), busy refusal, and after "
         "completion: client idle, no client timer left (pool occupancy), the next transfer unaffected; non-trivial = sequence with >= 1 "
@@ -38,6 +38,10 @@ class Transfer:
         self.race_n = self.timeout + rng.choice([-1, 0, 0, 0, 1, 3])
         self.abort_code = rng.choice([0x06020000, 0x05040000, 0x05040000, 0x06010002, 0x08000000, 0x06070010, 0x05030000, 0x00000001, 0xFFFFFFFF])
         self.k = rng.randrange(nsteps)
+        if self.behaviour == "oversize" and self.size < 4 and self.up:
+            self.behaviour = "exp-bigger"        # expedited answer carrying more bytes than the user buffer holds
+        if self.behaviour == "oversize" and self.size > 4 and self.up and rng.random() < 0.5:
+            self.behaviour = "announce-bigger"   # segmented answer announcing (and delivering) more bytes than the user buffer holds
         if self.behaviour in ("toggle", "early", "oversize") and self.size <= 4:
             self.behaviour = "ok"
         if self.behaviour == "toggle":
@@ -105,7 +109,7 @@ def run_sequence(res, exe, rng, first, forced=None):
             expect_code = None
             while True:
                 # scripted server decides its answer for this step
-                beh = tr.behaviour if step == tr.k else "ok"
+                beh = tr.behaviour if (step == tr.k or tr.behaviour in ("exp-bigger", "announce-bigger")) else "ok"
                 resp = None
                 final_after = False
                 if tr.up:
@@ -157,6 +161,17 @@ def run_sequence(res, exe, rng, first, forced=None):
                     else:
                         resp = bytes([0x43]) + m3 + bytes(4)
                     expect_code, final_after = "nonzero", True
+                elif beh == "exp-bigger" and step == 0:
+                    resp = bytes([0x43 | (rng.choice([0, 0, 1]) << 2)]) + m3 + gen.rand_bytes(rng, 4)
+                    expect_code, final_after = "any", True
+                elif beh == "announce-bigger" and step == 0:
+                    resp = bytes([0x41]) + m3 + (tr.size + rng.choice([1, 7, 8, 1000])).to_bytes(4, "little")
+                    expect_code = "any"
+                elif beh == "announce-bigger":
+                    # the server keeps delivering full segments beyond the user buffer
+                    resp = bytes([(tog << 4)]) + gen.rand_bytes(rng, 7)
+                    final_after = False
+                    expect_code = "any"
                 elif beh == "early":
                     expect_code = "any"
                 elif beh == "oversize":
